@@ -4,7 +4,7 @@
     data, weights and fitted parameters.  Proofs/LSCertProofs.v shows that a
     [true] result implies the rational statement. *)
 From Coq Require Import QArith ZArith List Bool Lia.
-From Verde Require Import Lib.Verdict Lib.Dyadic Lib.QExtra Lib.LinAlgQ Lib.LinAlgD Model.LeastSquares.
+From Verde Require Import Lib.Verdict Lib.Dyadic Lib.QExtra Lib.LinAlgQ Lib.LinAlgD Model.LeastSquares Model.Interpolators.
 Import ListNotations.
 Open Scope Z_scope.
 
@@ -64,10 +64,20 @@ Definition c02_meta (n : nat) (A : list (list D)) (d w p : list D) : verdict :=
 (** ** C01 *)
 Definition dclose (tol a b : D) : bool := dle (dabs (dsub a b)) tol.
 
-(** exactness: |pred_i - data_i| <= C * 2^-52 * kappa * max|data| *)
-Definition c01_exact (C kappa : D) (data pred : list D) : verdict :=
-  let tol := dmul (dmul C (dpow2 (-52))) (dmul kappa (dmaxabs data)) in
-  let ok := all2 (dclose tol) data pred in mk_verdict ok ok.
+(** exactness: |pred_i - truth_i| <= C * 2^-52 * kappa * max(scale, max|truth|) *)
+Definition exact_within (C kappa scale : D) (truth pred : list D) : bool :=
+  let tol := dmul (dmul C (dpow2 (-52))) (dmul kappa (dmax scale (dmaxabs truth))) in
+  all2 (dclose tol) truth pred.
+Definition c01_exact (C kappa scale : D) (truth pred : list D) : verdict :=
+  let ok := exact_within C kappa scale truth pred in mk_verdict ok ok.
+
+(** least-squares interpolators (Spline, VectorSpline2D with forces at the
+    data; Trend fitted to polynomial values): [agree] = the fitted parameters
+    satisfy the model's normal equations (unit weights, undamped) on the
+    implementation's Jacobian - from which the theorems derive exactness;
+    [holds] = the observed predictions reproduce the truth *)
+Definition c01_ls_exact (n : nat) (A : list (list D)) (d p : list D) (C kappa scale : D) (truth pred : list D) : verdict :=
+  mk_verdict (ls_cert (-30) n A d (dones (length A)) p d0) (exact_within C kappa scale truth pred).
 
 (** pass-through interpolators (nearest neighbour, Linear, Cubic at their own
     nodes): equality within 2^-40 of max|data| *)
